@@ -712,6 +712,9 @@ func exploreAppended(w *worker, resp *response, cut int, maxLen int) {
 		ref := reflog.Decode(in, refOpts)
 		got := runImpl(in, &v, kl, w.dec)
 		w.evals++
+		if len(ref.Units) == 0 && ref.Tail == reflog.TailTruncated && got.panic == "" && got.err == nil && len(got.recs) == 0 && got.next == v.R {
+			return // fast path: nothing decodable, nothing returned, offset unmoved (what compareStrong would conclude)
+		}
 		if ms := compareStrong(&got, &ref, &v); len(ms) > 0 {
 			report(ms, "appended-bytes", resp.name, "strong", in, fmt.Sprintf("prefix of %d bytes + %d arbitrary bytes", cut, len(in)-cut), &v, &got, &ref)
 		}
@@ -925,7 +928,7 @@ func main() {
 	}
 	for _, a := range M {
 		for _, b := range M {
-			addResp("pair", true, mkResponse(5, 0, a, b))
+			addResp("pair", thorough, mkResponse(5, 0, a, b))
 		}
 	}
 	r.Set("responses_single", 2*len(S))
@@ -980,7 +983,7 @@ func main() {
 	for _, k := range S {
 		resp := mkResponse(5, 0, k)
 		maxLen := 1
-		if thorough || k.sets&setM0 != 0 {
+		if thorough || (k.sets&setM0 != 0 && k.pid != 2 && !strings.Contains(k.name, "idem") && !strings.Contains(k.name, "lz4")) {
 			maxLen = 2
 		}
 		for cut := 0; cut <= len(resp.data); cut++ {
@@ -989,7 +992,7 @@ func main() {
 		}
 	}
 	if !thorough {
-		r.Set("appended_two_byte_strings", "single-unit kinds of the triples catalogue only (thorough: all)")
+		r.Set("appended_two_byte_strings", "single-unit kinds of the triples catalogue with producer 1 / no producer only (thorough: every kind)")
 	}
 	runJobs(r, "sweep2_appended_bytes", jobs, deadline)
 
